@@ -205,6 +205,22 @@ Eighth round (all six properties, agents told about everything built so far and 
   second 60 and as second 0 of the next minute).
 * `seeded/C17-r8c17-*`, `seeded/C08-r8c08-*`, `seeded/C07-r8c07-m1`: caught as they were.
 
+Ninth round (C20, C08, C17; informed): 9 changes, 4 missed at first.
+
+* `seeded/C20-r9c20-m2` (an `/etc/localtime` that is a text file holding a valid TZ description is decoded as that description): file
+  contents now include such text files, and bytes that do not begin with the magic number are expected to be refused wherever they are read.
+  `m1` (value cut at the first NUL) and `m3` (trailing `/` trimmed from the name) were caught as they were.
+* `seeded/C08-r9c08-m1` (a first transition at -2^59, zic's old "Big Bang" placeholder, silently dropped): first transitions now sometimes
+  take placeholder values (-2^59 and its neighbours, `i64::MIN`, -2^62, the 32-bit minimum). `m2` (the rule constructor's consistency check
+  converting the end time with the wrong offset, so that an ordinary footer with neighbouring rule days is refused): both the generator
+  (which filtered such rules out, through the library's own constructor) and the well-formedness model had left the verdict on a rule to
+  the library. The model now declares a rule consistent when its two changes alternate cleanly, at least two seconds apart, through a
+  400-year cycle (otherwise it still takes no position), the generator accepts such rules and produces neighbouring-day pairs; selftest:
+  0 disagreements with the constructor on 300 000 specs. `m3` (a seconds field of 60 accepted in rule times): typed corruption
+  `footer_minsec_60` (minutes or seconds of 60/61/99 in the offset or in a rule time).
+* `seeded/C17-r9c17-m1/m2/m3` (strict `>` reduction in `latest()`, `find` de-duplicating equal neighbours, sorted insertion in `find_n`):
+  caught as they were.
+
 Two-site breakages (`seeded/C07-duo2-m1`, `C08-duo2-m2`, `C17-duo2-m3`): each consists of two edits in different functions that are
 harmless alone (a relaxed range check in `TimeZoneRef::new` + a hoisted index in `find`; explicit enum discriminants + a numeric version
 comparison; an up-front validation in `find_n` + a reordered range check in the shared search). All three combinations were caught by the
